@@ -58,6 +58,9 @@ Shape(i, s, o1, o2) ==
     [] i = 31 -> [rw |-> Un(<<This, TTU("a", o1)>>), restr |-> <<Ty("user")>>]                  \* a free relation as tupleset: without type restrictions
     [] i = 32 -> [rw |-> Di(This, TTU("a", o1)), restr |-> <<Ty("user")>>]                      \* when it is a rewrite (shapes 6, 9, 18, 28, 29)
     [] i = 33 -> [rw |-> Un(<<TTU(o1, "p"), This, TTU(o1, "p")>>), restr |-> <<Ty("user")>>]    \* one tuple-to-userset twice among the operands (D23)
+    [] i = 34 -> [rw |-> In(<<This, CU("a")>>), restr |-> <<Ty("user"), Ty("grp"), Us("grp", "a")>>]   \* the FIRST operand reaches more types, and deeper, than a later one
+    [] i = 35 -> [rw |-> Un(<<This, TTU(s, "p"), TTU(s, o1)>>), restr |-> <<Ty("user")>>]        \* recursion through two tuplesets: parallel TTU edges inside a cycle
+    [] i = 36 -> [rw |-> This, restr |-> <<Ty("doc")>>]                                          \* (a second tupleset with parent doc)
     [] i = 23 -> [rw |-> Un(<<TTU("a", "q"), This>>), restr |-> <<TyC("user", "c"), Ty("user"), Wi("user")>>]
 
 FreeNames == IF NFree = 2 THEN <<"x", "y">> ELSE <<"x", "y", "z">>
